@@ -246,6 +246,20 @@ Proof.
   - rewrite rpow_pos by assumption. now apply is_derive_Rpower_r.
 Qed.
 
+(* number ** f(u): class Atom defines no __rpow__, so Python raises TypeError; should one be added, it has to be
+   the derivative of c ** f for a positive number c *)
+Lemma rpow_rule_or_absent :
+  has_rpow = false \/
+  (forall (f : R -> R) (x f' c : R), is_derive f x f' -> 0 < c ->
+     derives (fun u => rpow c (f u)) x (atom_rpow RD (f x, f') c)).
+Proof.
+  first
+  [ left; reflexivity
+  | right; intros f x f' c Hf Hc; unfold atom_rpow;
+    first [ apply exponential_rule; assumption
+          | destruct (atom_exponential RD (f x, f') c) as [v d] eqn:E; rewrite <- E; apply exponential_rule; assumption ] ].
+Qed.
+
 Lemma pow_ac_rule_pos : forall (f : R -> R) (x f' c : R), is_derive f x f' -> 0 < f x ->
   derives (fun u => rpow (f u) c) x (atom_pow_ac RD (f x, f') c).
 Proof. intros. unfold atom_pow_ac. destruct (atom_power RD (f x, f') c) eqn:E. rewrite <- E. now apply power_rule_pos. Qed.
@@ -446,8 +460,13 @@ Proof.
       apply (rmul_rule (fun u => den b (gam u)) s0 db' ca Hb).
     + apply (derives_ext (fun u => ca / den b (gam u))); [ intros; simpl; now rewrite IHa | ].
       apply (rtruediv_rule (fun u => den b (gam u)) s0 db' ca Hb). tauto.
-    + (* number ** Atom: class Atom has no __rpow__, Python raises TypeError *)
-      change has_rpow with false. exact I.
+    + (* number ** Atom: class Atom has no __rpow__ (Python raises TypeError), or its rule is correct *)
+      destruct has_rpow eqn:Erp; [ | exact I ].
+      destruct rpow_rule_or_absent as [Habs | Hrule]; [ congruence | ].
+      apply (derives_ext (fun u => rpow ca (den b (gam u)))); [ intros; simpl; now rewrite IHa | ].
+      destruct Hadm as (_ & _ & [Hpos | (_ & Hn & _)]).
+      * rewrite IHa in Hpos. apply (Hrule (fun u => den b (gam u)) s0 db' ca Hb Hpos).
+      * exfalso. exact (Hnv Hn).
   - (* Atom op number *)
     split_ih IHa da da' Ha.
     destruct o; simpl in Hadm; unfold atom_bop_ac.
